@@ -112,3 +112,20 @@ int ss_overwrite_good(SIZED_STRING* s, const char* v, unsigned n)
   }
   return 1;
 }
+
+/* R20.7: a value recognised by its decimal digits converted with base 0 */
+int is_integer(const char* s);
+long long strtoll(const char* s, char** e, int base);
+int atoi(const char* s);
+long long cli_int_bad(const char* value)
+{
+  if (is_integer(value))
+    return strtoll(value, NULL, 0);      /* 0100 -> 64 */
+  return 0;
+}
+long long cli_int_good(const char* value)
+{
+  if (is_integer(value))
+    return atoi(value);
+  return 0;
+}
